@@ -20,7 +20,7 @@ pub fn run(ctx: &Ctx) -> Outcome {
     let texts = spaces::texts_c01(ctx.tier.pick(3, 4));
     let fk_listed = ctx.known.listed("C08", "FK");
     let fj_listed = ctx.known.listed("C08", "FJ");
-    let acc = par_run(&patterns, true, Some(50_000_000), |_, p, acc| {
+    let acc = par_run(&patterns, true, Some(2_000_000), |_, p, acc| {
         if let Some(why) = diff::default_exclude(p) {
             acc.count(&format!("excluded:{}", why));
             return;
